@@ -11,7 +11,7 @@ from sa.model import contains, enclosing, superstep_funcs
 from sa.variants import Variant, replace_once, sub_first, sub_once
 
 from .c03 import check_ready_conjunction
-from .common import NotComparable, call_names, ordering_table
+from .common import NotComparable, call_names, ordering_table, vars_from_call
 
 ID = "C17"
 EXPLANATION = (
@@ -223,6 +223,22 @@ def check_completions_emit(ctx, rule: str) -> None:
         memo[f.qname] = res
         return res
 
+    # a completion served from the cache produces the signals too: on the hit path the whole restored payload
+    # (check_cache re-applies the sentinels) is what gets applied/returned, not a filtered projection of it
+    for ss in superstep_funcs(db):
+        for f in [ss] + list(ss.children.values()):
+            cvars = set(vars_from_call(db, f, {"check_cache"}, index=1))
+            if not cvars:
+                continue
+            hit_defs = []
+            for nm, ds in db.local_defs(f).items():
+                for d in ds:
+                    v = getattr(d, "value", None)
+                    if v is not None and nm not in cvars and any(isinstance(x, ast.Name) and x.id in cvars for x in ast.walk(v)) and not (isinstance(v, ast.Tuple)) and not (isinstance(v, ast.Call) and "check_cache" in call_names(db, v, f)):
+                        hit_defs.append((nm, d, v))
+            ok = bool(hit_defs) and all(isinstance(v, ast.Name) for _, _, v in hit_defs)
+            bad = [v for _, _, v in hit_defs if not isinstance(v, ast.Name)]
+            rep.add(rule, f"{f.qname}:hit-applies-whole-payload", ok, f.loc(), "on a cache hit the restored payload (data outputs and re-applied emit sentinels) is applied as it is" if ok else f"on a cache hit only a projection of the restored payload is applied ('{src(bad[0])[:70] if bad else '?'}'): emit sentinels are dropped, the signal's version does not advance and a waiter never runs for that production")
     n = 0
     for ci in db.classes.values():
         if ".executors." not in ci.module.name or "GraphNode" in ci.name:
